@@ -1,0 +1,19 @@
+//go:build verif
+
+package verifapi
+
+import (
+	"image"
+
+	"github.com/deepteams/webp/internal/lossy"
+)
+
+// Re-export for the pixel import of the lossy encoder on a recycled encoder
+// (property C19).
+
+// ImportPlanesAfter is lossy.VerifImportPlanesAfter: the padded Y/U/V planes
+// that lossy.NewEncoder / importImage compute from img on the encoder object
+// that has just imported prior (reused == true when the pool handed it back).
+func ImportPlanesAfter(prior image.Image, priorCfg lossy.EncodeConfig, img image.Image, cfg lossy.EncodeConfig, tries int) (y, u, v []byte, yStride, uvStride, mbW, mbH int, reused bool) {
+	return lossy.VerifImportPlanesAfter(prior, priorCfg, img, cfg, tries)
+}
